@@ -155,7 +155,9 @@ def w_embed(rng: random.Random) -> W:
 
 def rand_zid(rng: random.Random, day: dt.date, three: Optional[bool] = None) -> str:
     n = 3 if (three if three is not None else rng.random() < 0.25) else 2
-    return day.strftime("%y%m%d") + "#" + "".join(rng.choice(ZID_ALPHABET) for _ in range(n))
+    # first suffix character is a letter, so generated ZIDs can never collide with
+    # suffixes the real allocator hands out first (00, 01, ... 0z, 10, ...)
+    return day.strftime("%y%m%d") + "#" + rng.choice(ZID_ALPHABET[10:]) + "".join(rng.choice(ZID_ALPHABET) for _ in range(n - 1))
 
 
 # --------------------------------------------------------------------------- model
